@@ -78,3 +78,36 @@ Definition h2_meta (max_list sid : N) (frags : list (N * list hfield)) : meta_re
       else if negb (check_pseudos (ms_fields st)) then MErr (EStream sid ErrCodeProtocol)
       else MOk (ms_fields st) (ms_trunc st)
   end.
+
+(* ---------- several header blocks on one connection ---------- *)
+(* The Framer's hpack decoder (Framer.ReadMetaHeaders) lives as long as the connection; besides its
+   dynamic table (HPACK, abstracted) it carries ONE flag from block to block: whether it still
+   emits fields (the emit callback switches it off on an invalid field or a size overflow).
+   h2_meta_run emit0 = one readMetaFrame call that starts with the decoder's flag at emit0; second
+   component: the flag it leaves behind (None: connection error, nothing is read any more). *)
+Definition h2_meta_run (emit0 : bool) (max_list sid : N) (frags : list (N * list hfield)) : meta_res * option bool :=
+  let st0 := {| ms_remain := max_list; ms_regular := false; ms_invalid := false; ms_emit := emit0;
+                ms_trunc := false; ms_fields := [] |} in
+  match meta_frags st0 frags with
+  | Err e => (MErr e, None)
+  | Ok st =>
+      (if ms_invalid st then MErr (EStream sid ErrCodeProtocol)
+       else if negb (check_pseudos (ms_fields st)) then MErr (EStream sid ErrCodeProtocol)
+       else MOk (ms_fields st) (ms_trunc st), Some (ms_emit st))
+  end.
+
+(* readMetaFrame: `hdec.SetEmitEnabled(true)` first, whatever the previous block left behind *)
+Definition h2_meta_from (dec_emit : bool) := h2_meta_run true.
+(* the same without that line (what a decoder "emitting by default" would give): for the refutation *)
+Definition h2_meta_from_noreset (dec_emit : bool) := h2_meta_run dec_emit.
+
+(* ReadFrame over a sequence of header blocks (stream id, fragments) until a connection error *)
+Fixpoint h2_meta_seq_with (run : bool -> N -> N -> list (N * list hfield) -> meta_res * option bool)
+         (dec_emit : bool) (max_list : N) (blocks : list (N * list (N * list hfield))) : list meta_res :=
+  match blocks with
+  | [] => []
+  | (sid, frags) :: r =>
+      let '(res, e') := run dec_emit max_list sid frags in
+      res :: match e' with Some e => h2_meta_seq_with run e max_list r | None => [] end
+  end.
+Definition h2_meta_seq := h2_meta_seq_with h2_meta_from.
